@@ -41,8 +41,8 @@ func VerifC16Snapshot() {
 	tx.Flags.Quiet = true
 	proc := NewProcessor(tx)
 	scope := proc.ReferenceScope
-	const n = 3
-	var a [n]int64
+	n := verifBound(3, 5)
+	a := make([]int64, n)
 	rows := make([][]value.Primary, n)
 	for i := 0; i < n; i++ {
 		a[i] = verifInt64("a")
